@@ -255,7 +255,14 @@ func runServer(c segCase, p plan, ref []byte) error {
 			if _, err := ilConn.Write(ilReq[c.Interloper:]); err != nil {
 				return fmt.Errorf("second connection: write failed: %v", err)
 			}
-			want := device.New(c.DevSeed).Answer(spec.TCP, ilReq)
+			// the device's memory is shared by all units: replay the writes of the main stream before asking the reference
+			refDev := device.New(c.DevSeed)
+			for _, r := range c.Requests {
+				if !(r.Unit >= errorUnit && spec.IsSupported(r.FC) && spec.LegalRequest(r) == nil && !((r.FC == 1 || r.FC == 2) && r.Qty > 125)) && !((r.FC == 1 || r.FC == 2) && r.Qty > 125) {
+					refDev.Answer(spec.TCP, spec.EncodeRequest(spec.TCP, r))
+				}
+			}
+			want := refDev.Answer(spec.TCP, ilReq)
 			got := ilCol.WaitLen(len(want), 3*time.Second)
 			if len(got) < len(want) {
 				got = ilCol.WaitLen(len(want), 12*time.Second)
